@@ -236,9 +236,9 @@ def rdr_op(kind, policy, toks, data, fail_at=-1):
 def canon_rdr(line):
     """drop the counters that are not part of the compared behaviour"""
     import re
-    return re.sub(r" allocs=\d+ peak=\d+| reads=\d+ moved=\d+", "", line)
+    return re.sub(r" allocs=\d+ peak=\d+(?: fresh=\d+)?| reads=\d+ moved=\d+", "", line)
 
 
 def rdr_counters(line):
     import re
-    return {k: int(v) for k, v in re.findall(r"(live|allocs|peak|reads|moved)=(\d+)", line)}
+    return {k: int(v) for k, v in re.findall(r"(live|allocs|peak|fresh|reads|moved)=(\d+)", line)}
